@@ -288,14 +288,22 @@ theorem out_statement_fails : ¬ out_enforced_eq_valid_latest_statement := by
   revert this
   decide
 
-/-- outside `outlier-invalid-keeps-old` (no per-resource load was refused): the rule in force for each resource is
-    the latest rule handed over for it if it is valid, and nothing otherwise -/
-theorem out_enforced_eq_valid_latest_partial (ops : List OOp) (h : NoRefusal ops) (k : String) :
-    (runOut ops).enf k = outAccept (latestOut ops k) := (oinv_run ops h).enf k
+/-- outside `outlier-invalid-keeps-old` — for every resource whose latest rule was not a refused per-resource load
+    (`taintOut` is the classifier the driver uses) — the rule in force is the latest rule handed over for it if that
+    rule is valid, and nothing otherwise -/
+theorem out_enforced_eq_valid_latest_partial (ops : List OOp) (k : String) (h : k ∉ taintOut ops) :
+    (runOut ops).enf k = outAccept (latestOut ops k) := by
+  have hI := oinv_run ops
+  rw [hI.all k, hI.good k h]
 
-/-- whole-set loads alone never refuse: the full statement holds for them -/
-example : NoRefusal [.loadAll [none, some { pct2 := 3, recMs := 0, inner := none }], .loadRes "o" none] := by
-  simp [NoRefusal]
+/-- a whole-set load wipes the finding's region: right after it every resource is governed by the loaded set -/
+theorem out_whole_load_replaces_everything (ops : List OOp) (rules : List (Option OutRule)) (k : String) :
+    (runOut (ops ++ [.loadAll rules])).enf k = outAccept (outProj k rules) := by
+  have h : k ∉ taintOut (ops ++ [.loadAll rules]) := by simp [taintOut, List.foldl_append, taintStep]
+  rw [out_enforced_eq_valid_latest_partial _ k h]
+  simp [latestOut, List.foldl_append, latestOutStep]
+
+example : taintOut [.loadRes "o" (some { pct2 := 3, recMs := 0, inner := none }), .loadAll [none], .loadRes "p" none] = [] := by decide
 
 /-- invalid outlier rules are never put in force (in every state, whatever happened before) -/
 theorem out_invalid_never_installed (s : OState) (op : OOp) (k : String) (r : OutRule)
